@@ -18,6 +18,15 @@ CHECKS = {
     ),
 }
 
+CHECKS["C18"] = (
+    "exhaustive calendar enumeration + Hypothesis-generated bins/spans/models against reference tables and a numpy differential",
+    "Exhaustive over every hour of a leap and a non-leap year x 8 zones x 4 segment types for the weight tables and hour-of-week; "
+    "generated-input search for bin features (all 64 endpoint subsets), prediction routing (random segment models vs an independent "
+    "own-month evaluation), the feature processors and the fitting path (design-matrix weights, weighted least squares differential).",
+    "Trusted: reference weight table, reference bin formula and numpy lstsq in vf/props/c18.py. Exhaustive only for the calendar sub-domain.",
+    "DESIGN.md section 6, C18",
+)
+
 PENDING_REASON = "check not built yet in this session (work in progress; property-based testing applies and is planned, see DESIGN.md section 6)"
 
 
